@@ -349,6 +349,15 @@ pub fn stub_reader_read<'a>(r: &mut LogReader<'a>, buf: &mut [u8]) -> Result<()>
 	Ok(())
 }
 
+/// Run `f` with a LogReader over the harness log file (for harnesses outside this module: `Reading` is private to log.rs).
+pub fn with_reader<R>(f: impl FnOnce(&mut LogReader) -> R) -> R {
+	let lock = reading_at(3);
+	let mut rd = LogReader::new(lock.write(), false);
+	let r = f(&mut rd);
+	std::mem::forget(rd);
+	std::mem::forget(lock);
+	r
+}
 pub fn reader_for_tables<'a>(lock: &'a RwLock<Option<Reading>>, validate: bool) -> LogReader<'a> { LogReader::new(lock.write(), validate) }
 
 // =====================================================================================
